@@ -333,13 +333,20 @@ class MyPyAstVisitor:
         result_docstrings = self.docstring_parser.get_result_documentation(node.fullname)
         results_code = self._parse_results(node, function_id, result_docstrings)
 
+        # A single docstring entry with a tuple type documents all results of a function which returns a tuple
+        documented_results: list[tuple[AbstractType | None, str]] = [(doc.type, doc.name) for doc in result_docstrings]
+        if len(result_docstrings) == 1 and len(results_code) > 1:
+            whole_type = result_docstrings[0].type
+            if isinstance(whole_type, sds_types.TupleType) and len(whole_type.types) == len(results_code):
+                documented_results = [(type_, "") for type_ in whole_type.types]
+
         # Check docstring return type vs code return type hint
         i = 0
-        for result_type, result_doc in zip_longest(results_code, result_docstrings, fillvalue=None):
+        for result_type, result_doc in zip_longest(results_code, documented_results, fillvalue=None):
             if result_doc is None:
                 break
 
-            result_doc_type = result_doc.type
+            result_doc_type, result_doc_name = result_doc
 
             if (
                 result_type is not None
@@ -353,7 +360,7 @@ class MyPyAstVisitor:
             if result_doc_type is not None:
                 if result_type is None:
                     # Add missing returns
-                    result_name = result_doc.name if result_doc.name else f"result_{i + 1}"
+                    result_name = result_doc_name if result_doc_name else f"result_{i + 1}"
                     new_result = Result(type=result_doc_type, name=result_name, id=f"{function_id}/{result_name}")
                     results_code.append(new_result)
 
